@@ -18,7 +18,305 @@ theorem check_spec (fs : FS) (r : Root) (p : PathC) :
     (∀ loc, r.check fs p = .ok loc ↔ (fs.canon p = some loc ∧ startsWith loc r.canonicalized = true)) ∧
     (r.check fs p = .error .directoryTraversal ↔ ∃ loc, fs.canon p = some loc ∧ startsWith loc r.canonicalized = false) ∧
     (r.check fs p = .error (.io "canonicalizing include/import") ↔ fs.canon p = none) := by
-  sorry
+  unfold Root.check
+  cases hc : fs.canon p with
+  | none => simp
+  | some l =>
+    cases hs : startsWith l r.canonicalized <;> simp [hs]
+
+/-! ### the trace invariant, for the three mutually recursive functions at once -/
+
+/-- one step of `nodesLoop`, with the trace produced by each kind of node -/
+theorem nodesLoop_step (fs : FS) (cwd : PathC) (fuel : Nat) (prog : Program) (n : Node) (rest : List Node)
+    (tr : List Event) (ops : List RawOp) (tr' : List Event)
+    (h : nodesLoop fs cwd (fuel + 1) prog (n :: rest) tr = .ok (ops, tr')) :
+    ∃ first more tr1, ops = first ++ more ∧ nodesLoop fs cwd fuel prog rest tr1 = .ok (more, tr') ∧
+      (match n with
+       | .op o => first = [.op o] ∧ tr1 = tr
+       | .import_ path => resolveAndIngest fs cwd fuel prog path tr = .ok (first, tr1)
+       | .include path => ∃ inner, resolveAndIngest fs cwd fuel prog path tr = .ok (inner, tr1) ∧
+           first = [.scope (RawOps.ofList inner)]
+       | .includeHex path => ∃ bytes r loc, first = [.raw bytes] ∧
+           (match prog.root with
+            | some r => Except.ok r
+            | none => Root.new fs cwd (prog.sources.headD (PathC.ofString path))) = .ok r ∧
+           r.check fs (cwd.join ((baseDir prog).join (PathC.ofString path))) = .ok loc ∧
+           tr1 = tr ++ [.check (cwd.join ((baseDir prog).join (PathC.ofString path))) true] ++ [.read loc]) := by
+  cases n with
+  | op o =>
+    simp only [nodesLoop] at h
+    split at h
+    · simp at h
+    · rename_i more tr'' hrest
+      simp only [Except.ok.injEq, Prod.mk.injEq] at h
+      obtain ⟨rfl, rfl⟩ := h
+      exact ⟨_, _, _, rfl, hrest, rfl, rfl⟩
+  | import_ path =>
+    simp only [nodesLoop] at h
+    split at h
+    · simp at h
+    · rename_i first tr1 hone
+      split at h
+      · simp at h
+      · rename_i more tr'' hrest
+        simp only [Except.ok.injEq, Prod.mk.injEq] at h
+        obtain ⟨rfl, rfl⟩ := h
+        exact ⟨_, _, _, rfl, hrest, hone⟩
+  | «include» path =>
+    simp only [nodesLoop] at h
+    cases hri : resolveAndIngest fs cwd fuel prog path tr with
+    | error e => simp [hri] at h
+    | ok v =>
+      obtain ⟨inner, tr1⟩ := v
+      simp only [hri] at h
+      split at h
+      · simp at h
+      · rename_i more tr'' hrest
+        simp only [Except.ok.injEq, Prod.mk.injEq] at h
+        obtain ⟨rfl, rfl⟩ := h
+        exact ⟨_, _, _, rfl, hrest, inner, hri, rfl⟩
+  | includeHex path =>
+    simp only [nodesLoop] at h
+    have key : ∀ (root : Except IngErr Root), root = (match prog.root with
+            | some r => Except.ok r
+            | none => Root.new fs cwd (prog.sources.headD (PathC.ofString path))) →
+        (match
+          (match root with
+          | Except.error e => Except.error e
+          | Except.ok r =>
+            match Root.check fs r (cwd.join ((baseDir prog).join (PathC.ofString path))) with
+            | Except.error e => Except.error e
+            | Except.ok loc =>
+              match fs.readText loc with
+              | none => Except.error (IngErr.io "reading hex include")
+              | some text =>
+                match hexDecode (trimCp text) with
+                | none => Except.error IngErr.invalidHex
+                | some bytes =>
+                  Except.ok
+                    ([RawOp.raw bytes],
+                      tr ++ [Event.check (cwd.join ((baseDir prog).join (PathC.ofString path))) true] ++
+                        [Event.read loc]) : Except IngErr (List RawOp × List Event)) with
+          | Except.error e => Except.error e
+          | Except.ok (ops, tr') =>
+            match nodesLoop fs cwd fuel prog rest tr' with
+            | Except.error e => Except.error e
+            | Except.ok (more, tr'') => Except.ok (ops ++ more, tr'')) =
+          Except.ok (ops, tr') →
+        ∃ first more tr1, ops = first ++ more ∧ nodesLoop fs cwd fuel prog rest tr1 = .ok (more, tr') ∧
+          ∃ bytes r loc, first = [.raw bytes] ∧ root = .ok r ∧
+           r.check fs (cwd.join ((baseDir prog).join (PathC.ofString path))) = .ok loc ∧
+           tr1 = tr ++ [.check (cwd.join ((baseDir prog).join (PathC.ofString path))) true] ++ [.read loc] := by
+      intro root _ h
+      cases root with
+      | error e => simp at h
+      | ok r =>
+        simp only at h
+        cases hck : Root.check fs r (cwd.join ((baseDir prog).join (PathC.ofString path))) with
+        | error e => simp [hck] at h
+        | ok loc =>
+          simp only [hck] at h
+          cases hrd : fs.readText loc with
+          | none => simp [hrd] at h
+          | some text =>
+            simp only [hrd] at h
+            cases hhx : hexDecode (trimCp text) with
+            | none => simp [hhx] at h
+            | some bytes =>
+              simp only [hhx] at h
+              split at h
+              · simp at h
+              · rename_i more tr'' hrest
+                simp only [Except.ok.injEq, Prod.mk.injEq] at h
+                obtain ⟨rfl, rfl⟩ := h
+                exact ⟨_, _, _, rfl, hrest, bytes, r, loc, rfl, rfl, hck, rfl⟩
+    obtain ⟨first, more, tr1, h1, h2, bytes, r, loc, h3, h4, h5, h6⟩ := key _ rfl h
+    exact ⟨first, more, tr1, h1, h2, bytes, r, loc, h3, h4, h5, h6⟩
+
+/-- well-formed trace extension: blocks `check p true, read loc` with `canon p = loc` and `ok loc` -/
+inductive Tr (fs : FS) (ok : List String → Prop) : List Event → Prop
+  | nil : Tr fs ok []
+  | cons (p : PathC) (loc : List String) (rest : List Event) :
+      fs.canon p = some loc → ok loc → Tr fs ok rest → Tr fs ok (.check p true :: .read loc :: rest)
+
+theorem Tr.append {fs : FS} {ok : List String → Prop} {a b : List Event}
+    (ha : Tr fs ok a) (hb : Tr fs ok b) : Tr fs ok (a ++ b) := by
+  induction ha with
+  | nil => simpa using hb
+  | cons p loc rest hc ho _ ih => exact Tr.cons p loc _ hc ho ih
+
+theorem Tr.mono {fs : FS} {ok ok' : List String → Prop} {a : List Event}
+    (hm : ∀ l, ok l → ok' l) (ha : Tr fs ok a) : Tr fs ok' a := by
+  induction ha with
+  | nil => exact Tr.nil
+  | cons p loc rest hc ho _ ih => exact Tr.cons p loc _ hc (hm _ ho) ih
+
+theorem Tr.reads {fs : FS} {ok : List String → Prop} {a : List Event}
+    (ha : Tr fs ok a) : ∀ loc ∈ readsOf a, ok loc := by
+  induction ha with
+  | nil => intro loc h; simp [readsOf] at h
+  | cons p l rest hc ho _ ih =>
+    intro loc h
+    simp only [readsOf, List.filterMap_cons, List.mem_cons] at h
+    rcases h with rfl | h
+    · exact ho
+    · exact ih loc h
+
+theorem Tr.idx {fs : FS} {ok : List String → Prop} {a : List Event}
+    (ha : Tr fs ok a) : ∀ (i : Nat) (loc : List String), a[i + 1]? = some (Event.read loc) →
+      ∃ p, a[i]? = some (Event.check p true) ∧ fs.canon p = some loc := by
+  induction ha with
+  | nil => intro i loc h; simp at h
+  | cons p l rest hc ho hr ih =>
+    intro i loc h
+    match i with
+    | 0 =>
+      simp at h
+      subst h
+      exact ⟨p, by simp, hc⟩
+    | 1 =>
+      simp at h
+      cases hr with
+      | nil => simp at h
+      | cons => simp at h
+    | i + 2 =>
+      simp at h
+      simpa using ih i loc h
+
+def Ok (fs : FS) (cwd : PathC) (prog : Program) (loc : List String) : Prop :=
+  ∃ r : Root, (prog.root = some r ∨
+      (prog.root = none ∧ ∃ d, Root.new fs cwd (prog.sources.headD d) = .ok r)) ∧
+    startsWith loc r.canonicalized = true
+
+def Inv (fs : FS) (cwd : PathC) (prog : Program) (tr tr' : List Event) : Prop :=
+  ∃ extra, tr' = tr ++ extra ∧ Tr fs (Ok fs cwd prog) extra
+
+theorem Inv.refl (fs : FS) (cwd : PathC) (prog : Program) (tr : List Event) : Inv fs cwd prog tr tr :=
+  ⟨[], by simp, Tr.nil⟩
+
+theorem Inv.trans {fs : FS} {cwd : PathC} {prog : Program} {a b c : List Event}
+    (h1 : Inv fs cwd prog a b) (h2 : Inv fs cwd prog b c) : Inv fs cwd prog a c := by
+  obtain ⟨e1, rfl, t1⟩ := h1
+  obtain ⟨e2, rfl, t2⟩ := h2
+  exact ⟨e1 ++ e2, by simp, t1.append t2⟩
+
+theorem root_check_ok (fs : FS) (cwd : PathC) (prog : Program) (d : PathC) (r : Root) (p : PathC)
+    (loc : List String)
+    (hroot : (match prog.root with
+            | some r => Except.ok r
+            | none => Root.new fs cwd (prog.sources.headD d)) = .ok r)
+    (hck : r.check fs p = .ok loc) :
+    fs.canon p = some loc ∧ Ok fs cwd prog loc ∧
+      (∀ srcs l, Ok fs cwd { root := some r, sources := srcs } l → Ok fs cwd prog l) := by
+  have hc := ((check_spec fs r p).1 loc).1 hck
+  have hor : prog.root = some r ∨ (prog.root = none ∧ ∃ d, Root.new fs cwd (prog.sources.headD d) = .ok r) := by
+    cases hr : prog.root with
+    | some r0 => simp [hr] at hroot; simp [hroot]
+    | none => simp only [hr] at hroot; exact Or.inr ⟨rfl, d, hroot⟩
+  refine ⟨hc.1, ⟨r, hor, hc.2⟩, ?_⟩
+  intro srcs l ⟨r', h', hs⟩
+  have : r' = r := by
+    rcases h' with h' | ⟨h', _⟩
+    · simp at h'; exact h'.symm
+    · simp at h'
+  subst this
+  exact ⟨r', hor, hs⟩
+
+theorem resolveAndIngest_step (fs : FS) (cwd : PathC) (fuel : Nat) (prog : Program) (path : String)
+    (tr : List Event) (ops : List RawOp) (tr' : List Event)
+    (h : resolveAndIngest fs cwd (fuel + 1) prog path tr = .ok (ops, tr')) :
+    ∃ r loc text, (match prog.root with
+            | some r => Except.ok r
+            | none => Root.new fs cwd (prog.sources.headD (PathC.ofString path))) = .ok r ∧
+      r.check fs (cwd.join ((baseDir prog).join (PathC.ofString path))) = .ok loc ∧
+      preprocess fs cwd fuel { root := some r, sources := prog.sources ++ [(baseDir prog).join (PathC.ofString path)] } text
+        (tr ++ [.check (cwd.join ((baseDir prog).join (PathC.ofString path))) true] ++ [.read loc]) = .ok (ops, tr') := by
+  simp only [resolveAndIngest] at h
+  split at h
+  · simp at h
+  · have key : ∀ (root : Except IngErr Root),
+        (match root with
+          | Except.error e => Except.error e
+          | Except.ok r =>
+            match Root.check fs r (cwd.join ((baseDir prog).join (PathC.ofString path))) with
+            | Except.error e => Except.error e
+            | Except.ok loc =>
+              match fs.readText loc with
+              | none => Except.error (IngErr.io "reading file before parsing")
+              | some text =>
+                preprocess fs cwd fuel { root := some r, sources := prog.sources ++ [(baseDir prog).join (PathC.ofString path)] } text
+                  (tr ++ [Event.check (cwd.join ((baseDir prog).join (PathC.ofString path))) true] ++ [Event.read loc])) =
+          Except.ok (ops, tr') →
+        ∃ r loc text, root = .ok r ∧
+          r.check fs (cwd.join ((baseDir prog).join (PathC.ofString path))) = .ok loc ∧
+          preprocess fs cwd fuel { root := some r, sources := prog.sources ++ [(baseDir prog).join (PathC.ofString path)] } text
+            (tr ++ [.check (cwd.join ((baseDir prog).join (PathC.ofString path))) true] ++ [.read loc]) = .ok (ops, tr') := by
+      intro root h
+      cases root with
+      | error e => simp at h
+      | ok r =>
+        simp only at h
+        cases hck : Root.check fs r (cwd.join ((baseDir prog).join (PathC.ofString path))) with
+        | error e => simp [hck] at h
+        | ok loc =>
+          simp only [hck] at h
+          cases hrd : fs.readText loc with
+          | none => simp [hrd] at h
+          | some text =>
+            simp only [hrd] at h
+            exact ⟨r, loc, text, rfl, hck, h⟩
+    exact key _ h
+
+theorem main_inv (fs : FS) (cwd : PathC) : ∀ fuel : Nat,
+    (∀ prog src tr ops tr', preprocess fs cwd fuel prog src tr = .ok (ops, tr') → Inv fs cwd prog tr tr') ∧
+    (∀ prog nodes tr ops tr', nodesLoop fs cwd fuel prog nodes tr = .ok (ops, tr') → Inv fs cwd prog tr tr') ∧
+    (∀ prog path tr ops tr', resolveAndIngest fs cwd fuel prog path tr = .ok (ops, tr') → Inv fs cwd prog tr tr') := by
+  intro fuel
+  induction fuel with
+  | zero =>
+    refine ⟨?_, ?_, ?_⟩ <;> intro prog x tr ops tr' h
+    · simp [preprocess] at h
+    · simp [nodesLoop] at h
+    · simp [resolveAndIngest] at h
+  | succ fuel ih =>
+    obtain ⟨ihP, ihN, ihR⟩ := ih
+    have block : ∀ (prog : Program) (d : PathC) (r : Root) (p : PathC) (loc : List String) (tr : List Event),
+        (match prog.root with
+            | some r => Except.ok r
+            | none => Root.new fs cwd (prog.sources.headD d)) = .ok r →
+        r.check fs p = .ok loc →
+        Inv fs cwd prog tr (tr ++ [.check p true] ++ [.read loc]) := by
+      intro prog d r p loc tr hroot hck
+      obtain ⟨h1, h2, _⟩ := root_check_ok fs cwd prog d r p loc hroot hck
+      exact ⟨[.check p true, .read loc], by simp, Tr.cons p loc [] h1 h2 Tr.nil⟩
+    refine ⟨?_, ?_, ?_⟩
+    · intro prog src tr ops tr' h
+      simp only [preprocess] at h
+      split at h
+      · simp at h
+      · exact ihN _ _ _ _ _ h
+    · intro prog nodes tr ops tr' h
+      cases nodes with
+      | nil =>
+        simp only [nodesLoop, Except.ok.injEq, Prod.mk.injEq] at h
+        obtain ⟨_, rfl⟩ := h
+        exact Inv.refl ..
+      | cons n rest =>
+        obtain ⟨first, more, tr1, _, hrest, hn⟩ := nodesLoop_step fs cwd fuel prog n rest tr ops tr' h
+        refine Inv.trans ?_ (ihN _ _ _ _ _ hrest)
+        cases n with
+        | op o => obtain ⟨_, rfl⟩ := hn; exact Inv.refl ..
+        | import_ path => exact ihR _ _ _ _ _ hn
+        | «include» path => obtain ⟨inner, hn, _⟩ := hn; exact ihR _ _ _ _ _ hn
+        | includeHex path =>
+          obtain ⟨bytes, r, loc, _, hroot, hck, rfl⟩ := hn
+          exact block prog _ r _ loc tr hroot hck
+    · intro prog path tr ops tr' h
+      obtain ⟨r, loc, text, hroot, hck, hp⟩ := resolveAndIngest_step fs cwd fuel prog path tr ops tr' h
+      refine Inv.trans (block prog _ r _ loc tr hroot hck) ?_
+      obtain ⟨_, _, hmono⟩ := root_check_ok fs cwd prog _ r _ loc hroot hck
+      obtain ⟨extra, he, ht⟩ := ihP _ _ _ _ _ hp
+      exact ⟨extra, he, ht.mono (hmono _)⟩
 
 /-- C18 (trace invariant).  Whatever the sources contain, at any nesting depth,
 every file `preprocess` reads lies inside the root the program was created with
@@ -31,7 +329,13 @@ theorem preprocess_contained (fs : FS) (cwd : PathC) (fuel : Nat) (prog : Progra
       ∀ loc ∈ readsOf extra, ∃ r : Root,
         (prog.root = some r ∨ (prog.root = none ∧ ∃ p, Root.new fs cwd p = .ok r)) ∧
         startsWith loc r.canonicalized = true := by
-  sorry
+  obtain ⟨extra, he, ht⟩ := (main_inv fs cwd fuel).1 prog src tr ops tr' h
+  refine ⟨extra, he, fun loc hl => ?_⟩
+  obtain ⟨r, hr, hs⟩ := ht.reads loc hl
+  refine ⟨r, ?_, hs⟩
+  rcases hr with hr | ⟨hr, d, hd⟩
+  · exact Or.inl hr
+  · exact Or.inr ⟨hr, _, hd⟩
 
 /-- … and every read is immediately preceded by the successful check of a path
 resolving to that very location. -/
@@ -41,7 +345,8 @@ theorem preprocess_checked (fs : FS) (cwd : PathC) (fuel : Nat) (prog : Program)
     ∃ extra, tr' = tr ++ extra ∧
       ∀ (i : Nat) (loc : List String), extra[i + 1]? = some (Event.read loc) →
         ∃ p, extra[i]? = some (Event.check p true) ∧ fs.canon p = some loc := by
-  sorry
+  obtain ⟨extra, he, ht⟩ := (main_inv fs cwd fuel).1 prog src tr ops tr' h
+  exact ⟨extra, he, ht.idx⟩
 
 /-- C18 for `ingest_file`: everything read besides the top-level source itself lies
 inside the directory of the top-level source; on any error nothing is output
@@ -49,7 +354,30 @@ inside the directory of the top-level source; on any error nothing is output
 theorem ingestFile_contained (fs : FS) (cwd : PathC) (rnd : Nat → Nat) (fuel : Nat) (path : PathC)
     (bytes : List Nat) (tr : List Event) (h : ingestFile fs cwd rnd fuel path = .ok (bytes, tr)) :
     ∀ loc ∈ readsOf tr, ∃ r, Root.new fs cwd path = .ok r ∧ startsWith loc r.canonicalized = true := by
-  sorry
+  unfold ingestFile at h
+  split at h
+  · simp at h
+  · split at h
+    · simp at h
+    · simp only at h
+      split at h
+      · simp at h
+      · rename_i ops tr0 hp
+        split at h
+        · simp at h
+        · simp only [Except.ok.injEq, Prod.mk.injEq] at h
+          obtain ⟨_, rfl⟩ := h
+          obtain ⟨extra, he, ht⟩ := (main_inv fs cwd fuel).1 _ _ _ _ _ hp
+          simp only [List.nil_append] at he
+          subst he
+          intro loc hl
+          obtain ⟨r, hr, hs⟩ := ht.reads loc hl
+          refine ⟨r, ?_, hs⟩
+          rcases hr with hr | ⟨_, d, hd⟩
+          · cases hn : Root.new fs cwd path with
+            | error e => simp [hn, Except.toOption] at hr
+            | ok r0 => simp [hn, Except.toOption] at hr; rw [hr]
+          · simpa using hd
 
 /-! ### C12: what the directives contribute -/
 
@@ -65,7 +393,15 @@ theorem nodesLoop_directive (fs : FS) (cwd : PathC) (fuel : Nat) (prog : Program
        | .include path => ∃ inner, resolveAndIngest fs cwd fuel prog path tr = .ok (inner, tr1) ∧
            first = [.scope (RawOps.ofList inner)]
        | .includeHex _ => ∃ bytes, first = [.raw bytes]) := by
-  sorry
+  obtain ⟨first, more, tr1, h1, h2, hn⟩ := nodesLoop_step fs cwd fuel prog n rest tr ops tr' h
+  refine ⟨first, more, tr1, h1, h2, ?_⟩
+  cases n with
+  | op o => exact hn
+  | import_ path => exact hn
+  | «include» path => exact hn
+  | includeHex path =>
+    obtain ⟨bytes, _, _, hb, _⟩ := hn
+    exact ⟨bytes, hb⟩
 
 /-- A nested scope contributes exactly the bytes it assembles to on its own
 (its own macro table, labels counted from zero), whatever surrounds it. -/
@@ -73,7 +409,7 @@ theorem scope_is_standalone (rnd : Nat → Nat) (fuel : Nat) (ms : List (String 
     (ops : RawOps) (bytes : List Nat) (k' : Nat)
     (h : Spec.assembleScope rnd fuel k ops = .ok (bytes, k')) :
     Spec.flattenOp rnd (fuel + 1) ms depth k (.scope ops) = .ok ([.raw bytes], k') := by
-  sorry
+  simp [Spec.flattenOp, h]
 
 end Asm
 end EtkVerif
